@@ -1,0 +1,23 @@
+//! Verification hooks (cargo feature `verif-hooks`, off by default; add-only).
+//!
+//! H2: a callback invoked by `Project::run_runnables` with the exact slice of tests that
+//! is about to be handed to the parallel iterator, so that an external harness can audit
+//! which reference-counted allocations the tests share.
+
+use aiken_lang::test_framework::Test;
+use std::sync::Mutex;
+
+pub type Audit = fn(&[Test]);
+
+static PRE_PARALLEL_AUDIT: Mutex<Option<Audit>> = Mutex::new(None);
+
+pub fn set_pre_parallel_audit(audit: Option<Audit>) {
+    *PRE_PARALLEL_AUDIT.lock().unwrap() = audit;
+}
+
+pub fn run_pre_parallel_audit(tests: &[Test]) {
+    let audit = *PRE_PARALLEL_AUDIT.lock().unwrap();
+    if let Some(audit) = audit {
+        audit(tests);
+    }
+}
